@@ -155,15 +155,23 @@ Inductive result := RSucc | RExisted | RNoPre | RQnLess | RFailed | RFuel.
 
 Definition is_some {A} (o : option A) : bool := match o with Some _ => true | None => false end.
 
+(* verifiedBlocks: lru.New(20), most recently used first. Contains does not touch the order; Add puts
+   the key in front and evicts the oldest beyond 20; Get moves the key to the front; Remove drops it. *)
+Definition VCAP : nat := 20.
+Definition vmem (vf : list N) (h : N) : bool := existsb (N.eqb h) vf.
+Definition vf_del (h : N) (vf : list N) : list N := filter (fun x => negb (x =? h)) vf.
+Definition vf_add (h : N) (vf : list N) : list N := firstn VCAP (h :: vf_del h vf).
+Definition vf_get (h : N) (vf : list N) : list N := if vmem vf h then h :: vf_del h vf else vf.
+
 (* remove(): verifiedBlocks.Remove(hash) - once per removed block, i.e. per WDelHash *)
-Definition vf_after (ws : list write) (vf : N -> bool) : N -> bool :=
-  fold_left (fun v w => match w with WDelHash h => upd v h false | _ => v end) ws vf.
+Definition vf_after (ws : list write) (vf : list N) : list N :=
+  fold_left (fun v w => match w with WDelHash h => vf_del h v | _ => v end) ws vf.
 
 (* ---- addBlockOnChain (recursive: after a reorg, and for a waiting orphan after a success).
    Returns the writes, the result code, "out of fuel somewhere" (the Go recursion is unbounded) and
    the verifiedBlocks cache afterwards. *)
-Fixpoint add_writes (fuel : nat) (fut : N -> option block) (vf : N -> bool) (s : st) (b : block)
-  : list write * result * bool * (N -> bool) :=
+Fixpoint add_writes (fuel : nat) (fut : N -> option block) (vf : list N) (s : st) (b : block)
+  : list write * result * bool * list N :=
   match fuel with
   | O => ([], RFuel, true, vf)
   | S f =>
@@ -175,20 +183,22 @@ Fixpoint add_writes (fuel : nat) (fut : N -> option block) (vf : N -> bool) (s :
       | None =>
         (* verifyBlock: code 2; on a cache hit the checks are skipped and the weight test or the
            failing parent lookup ends the call *)
-        ([], if vf (hash b) && (qn b <? qn top) then RQnLess else RFailed, false, vf)
+        ([], if vmem vf (hash b) && (qn b <? qn top) then RQnLess else RFailed, false, vf)
       | Some anc =>
-        if negb (vf (hash b)) && existsb (exec s) (txs b) then ([], RFailed, false, vf) (* code -1 *)
+        if negb (vmem vf (hash b)) && existsb (exec s) (txs b) then ([], RFailed, false, vf) (* code -1 *)
         else
-        let vf1 := upd vf (hash b) true in               (* checkStates: verifiedBlocks.Add *)
+        (* cache hit: verifyBlock returns at once; miss: checkStates ends with verifiedBlocks.Add *)
+        let vf1 := if vmem vf (hash b) then vf else vf_add (hash b) vf in
         let reorg :=
           let ws := rfca (N.to_nat (height top - height anc)) s (height anc) (height top) in
           let '(ws2, r, ex, vf2) := add_writes f fut (vf_after ws vf1) (apply ws s) b in
           (ws ++ ws2, r, ex, vf2) in
         if pre b =? hash top then
           let ws := insert_writes b in
+          let vfi := vf_get (hash b) vf1 in              (* saveStates: verifiedBlocks.Get *)
           match fut (hash b) with                        (* successOnChainCallBack *)
-          | None => (ws, RSucc, false, vf1)
-          | Some c => let '(ws2, _, ex, vf2) := add_writes f fut vf1 (apply ws s) c in (ws ++ ws2, RSucc, ex, vf2)
+          | None => (ws, RSucc, false, vfi)
+          | Some c => let '(ws2, _, ex, vf2) := add_writes f fut vfi (apply ws s) c in (ws ++ ws2, RSucc, ex, vf2)
           end
         else if qn b <? qn top then ([], RQnLess, false, vf1)
         else if qn top <? qn b then reorg
@@ -201,7 +211,7 @@ Fixpoint add_writes (fuel : nat) (fut : N -> option block) (vf : N -> bool) (s :
   end.
 
 (* volatile node state: waiting orphans and the verified-block cache *)
-Definition vol := ((N -> option block) * (N -> bool))%type.
+Definition vol := ((N -> option block) * list N)%type.
 
 (* ---- AddBlockOnChain: consensusVerify (stub helper accepts), then addBlockOnChain ---- *)
 Definition deliver (fuel : nat) (v : vol) (s : st) (b : block) : st * vol * result :=
@@ -217,6 +227,91 @@ Fixpoint run (fuel : nat) (v : vol) (s : st) (hist : list block) : st * vol :=
   match hist with
   | [] => (s, v)
   | b :: r => let '(s', v', _) := deliver fuel v s b in run fuel v' s' r
+  end.
+
+(* ---- fork switch (fork_block.go): a chain segment fetched by sync, kept by height in the fork DB.
+   newBlockChainFork(commonAncestor); addBlockOnFork: verifyOrder (parent = fork's latest) and
+   verifyStateAndReceipt, which opens the state of the fork block at height-1 (so a height gap ends the
+   segment); triggerOnChain: lighter => done; common-ancestor search by height from [current]; equal QN
+   and local prove value greater => done; first call only: removeFromCommonAncestor, current++; then
+   tryAddBlockOnChain (consensusVerify + addBlockOnChain) height by height, stopping at the first
+   block that is missing or not added. ---- *)
+Record fork := mkF { f_header : N; f_current : N; f_blocks : N -> option block; f_latest : block }.
+
+Definition fork_new (a : block) : fork :=
+  mkF (height a) (height a) (upd (fun _ => None) (height a) (Some a)) a.
+
+Definition fork_add (fk : fork) (b : block) : fork * bool :=
+  if (pre b =? hash (f_latest fk)) && (height (f_latest fk) + 1 =? height b)
+  then (mkF (f_header fk) (f_current fk) (upd (f_blocks fk) (height b) (Some b)) b, true)
+  else (fk, false).
+
+Fixpoint fork_anc (n : nat) (fk : fork) (s : st) (ht : N) (acc : option block) : option block :=
+  match n with
+  | O => acc
+  | S n' =>
+    if height (f_latest fk) <? ht then acc else
+    match f_blocks fk ht, byHeight s ht with
+    | Some fb, Some cb => if hash cb =? hash fb then fork_anc n' fk s (ht + 1) (Some fb) else acc
+    | _, _ => acc
+    end
+  end.
+
+(* nextPvGreatThanFork *)
+Definition next_pv_great (a top : block) (fk : fork) (s : st) : bool :=
+  if (height a <? height (f_latest fk)) && (height a <? height top) then
+    match f_blocks fk (height a + 1), byHeight s (height a + 1) with
+    | Some fb, Some cb => pv_local_greater cb fb
+    | _, _ => true
+    end
+  else true.
+
+(* the add loop; returns writes, "reached the end", current, volatile state, out-of-fuel *)
+Fixpoint fork_adds (n fuel : nat) (v : vol) (s : st) (fk : fork) (cur_h : N)
+  : list write * bool * N * vol * bool :=
+  match n with
+  | O => ([], true, cur_h, v, false)
+  | S n' =>
+    if height (f_latest fk) <? cur_h then ([], true, cur_h, v, false) else
+    match f_blocks fk cur_h with
+    | None => ([], false, cur_h, v, false)
+    | Some b =>
+      let '(fut, vf) := v in
+      match byHash s (pre b) with
+      | None => ([], false, cur_h, (upd fut (pre b) (Some b), vf), false)     (* NoPreOnChain *)
+      | Some _ =>
+        if is_some (byHash s (hash b)) then ([], false, cur_h, v, false) else (* BlockExisted *)
+        let '(ws, r, ex, vf') := add_writes fuel fut vf s b in
+        match r with
+        | RSucc =>
+          let '(ws2, ok, c2, v2, ex2) := fork_adds n' fuel (fut, vf') (apply ws s) fk (cur_h + 1) in
+          (ws ++ ws2, ok, c2, v2, ex || ex2)
+        | _ => (ws, false, cur_h, (fut, vf'), ex)
+        end
+      end
+    end
+  end.
+
+Definition fork_trigger (fuel : nat) (v : vol) (s : st) (fk : fork)
+  : list write * bool * fork * vol * bool :=
+  match cur s with
+  | None => ([], true, fk, v, false)
+  | Some top =>
+    let lt := f_latest fk in
+    if qn lt <? qn top then ([], true, fk, v, false) else
+    match fork_anc (S (N.to_nat (height lt - f_current fk))) fk s (f_current fk) None with
+    | None => ([], true, fk, v, false)
+    | Some a =>
+      if (qn lt =? qn top) && next_pv_great a top fk s then ([], true, fk, v, false) else
+      let '(ws0, c1) :=
+        if f_current fk =? f_header fk
+        then (rfca (N.to_nat (height top - height a)) s (height a) (height top), f_current fk + 1)
+        else ([], f_current fk) in
+      let v1 := (fst v, vf_after ws0 (snd v)) in
+      let '(ws1, ok, c2, v2, ex) :=
+        fork_adds (S (N.to_nat (height lt - c1))) fuel v1 (apply ws0 s) fk c1 in
+      (ws0 ++ ws1, ok, mkF (f_header fk) c2 (f_blocks fk) lt, v2, ex)
+    end
   end.
 
 (* ---- the canonical store for a chain (head first, genesis last) ---- *)
